@@ -471,6 +471,10 @@ char *FUNC(generate)(jwt_common_t *__cmd)
 		return NULL;
 	}
 
+	/* The callback may have set a key and left alg alone */
+	if (config.alg == JWT_ALG_NONE && config.key)
+		config.alg = config.key->alg;
+
 	jwt->alg = config.alg;
 	jwt->key = config.key;
 
